@@ -58,9 +58,9 @@ check("C19", "exploration",
       "bounded exhaustive enumeration of trees x invocations on the real binary vs reference model", "DESIGN.md#c19", engine="cli")
 
 check("C20", "fault_enumeration",
-      "The real cmd/minify binary runs under a ptrace supervisor. For each of ~30 histories (in-place for every media type and sizes 0..64KiB+1, failing minification, symlink/hard-link aliases, separate output, mirror, in-place directory, bundles onto an input, sync, preserve variants) a trace run records the N file-mutating system calls; then for every k in 1..N a fresh tree is built and the process is SIGKILLed right before operation k executes, and every write is additionally torn at 1, n/2, n-1 bytes (thorough: every operation also fails with ENOSPC/EIO/EACCES). Each disk state left behind must keep, for every input file, the complete original in place or in <name>.bak, or the complete new output; files only read must be unchanged.",
-      "Process kill only (no power loss); task order must be sequential (single task or -v) for the operation index to be meaningful; the expected new content is the content after an undisturbed run.",
-      "exhaustive crash-point and torn-write enumeration at system-call boundaries of the real binary (ptrace fault injector)", "DESIGN.md#c20", engine="ptsup")
+      "The real cmd/minify binary runs under a ptrace supervisor. For each of ~30 histories (in-place for every media type and sizes 0..64KiB+1, failing minification, symlink/hard-link aliases, separate output, mirror, in-place directory, bundles onto an input, sync, preserve variants) a trace run records the N file-mutating system calls; then for every k in 1..N a fresh tree is built and the process is SIGKILLed right before operation k executes, and every write is additionally torn at 1, n/2, n-1 bytes (thorough: every operation also fails with ENOSPC/EIO/EACCES). Each disk state left behind must keep, for every input file, the complete original in place or in <name>.bak, or the complete new output; files only read must be unchanged. The worker pool is model-checked separately: the tool is rebuilt (go build -overlay) with package os routed through a shim, 1-2 (thorough 3) tasks of seven kinds run the real minify(Task) as controlled threads, every interleaving of their file system operations up to 2 (3) preemptions is explored with the disk digest in the state key, the same invariant is evaluated before every disk-changing operation (torn writes included) and the final tree must equal the sequential one.",
+      "Process kill only (no power loss); ptrace histories run tasks sequentially (single task or -v); in the concurrent family preemption happens at file system operations only and the channel that distributes tasks is not modelled; the expected new content is the content after an undisturbed run.",
+      "exhaustive crash-point and torn-write enumeration at system-call boundaries of the real binary (ptrace fault injector) + stateless schedule exploration of concurrent task bodies with crash invariant at every operation", "DESIGN.md#c20", engine="ptsup")
 
 check("C06", "exploration",
       "Well-formed documents are generated by grammar (optional XML declaration and DOCTYPE with internal subset; every content sequence of <=3 (thorough <=4) items over 37 text chunks, CDATA variants incl. ]]> splits, comments, PIs and child elements; nested children; every attribute value of <=4 (<=5) symbols over quotes and references to tab/LF/CR/space in both quote kinds), minified with KeepWhitespace off/on, and compared through an own XML reader: output well-formed (own tokenizer + encoding/xml strict), same markup events, attributes equal after XML 1.0 attribute-value normalisation, processing instructions identical, and per text run a matcher that allows collapsible white-space runs to shrink (to nothing only next to a tag and only without KeepWhitespace) but never joins, splits or drops words and keeps CDATA characters exact.",
